@@ -12,6 +12,7 @@
 
 import json
 import random
+from concurrent.futures import ThreadPoolExecutor
 
 from .. import tlc, tlaval
 from ..common import CPUS, MachineryError, chunks, import_repo, pmap
@@ -47,7 +48,6 @@ CONSTANTS
 MC_INVARIANTS = """INVARIANT SingleOK
 INVARIANT ReloadSat
 INVARIANT PairOK
-INVARIANT MergedReloadSat
 INVARIANT BandsOrdered
 """
 
@@ -314,31 +314,57 @@ def _alphabet_module() -> str:
             + "\n====\n")
 
 
-def _mc(ctx, params, *, invariants=MC_INVARIANTS, dump=False, coverage=False, tag=""):
+def _mc(ctx, params, *, invariants=MC_INVARIANTS, dump=False, coverage=False, tag="", workers=None, staged=False):
     cfg = MC_CFG % params + invariants
-    return tlc.run("MC_NrpsModules", cfg, ctx.workdir, extra_files={"MC_NrpsModules.tla": _alphabet_module()},
-                   dump=dump, coverage=coverage, timeout=3000, tag=tag, heap="6g")
+    extra = None if staged else {"MC_NrpsModules.tla": _alphabet_module()}  # concurrent runs must not rewrite it
+    return tlc.run("MC_NrpsModules", cfg, ctx.workdir, extra_files=extra,
+                   dump=dump, coverage=coverage, timeout=3000, tag=tag, heap="6g", workers=workers)
 
 
 def _negative_controls(ctx):
+    """ deliberately wrong models must be caught by the verdict operators, and the model must really merge,
+        absorb, split and build a double-transporter module (each: an invariant that has to be violated);
+        one small run with coverage shows that every action is taken """
     small = {"single": _indices([_name(e) for e in ALPHABET]), "pair": _indices(PAIR_QUICK), "maxlen": 2, "maxup": 1,
              "maxdown": 3, "variant": "ok"}
-    wrong = [("dup_loader", "SingleOK", "model that lets a second loader join"),
-             ("late_mods", "SingleOK", "model that lets any modification follow the carrier protein"),
-             ("no_cp_needed", "SingleOK", "model that reports complete without a carrier protein"),
-             ("drop_domain", "PairOK", "model whose merge loses the last domain")]
-    for variant, invariant, label in wrong:
-        params = dict(small, variant=variant, maxlen=3 if variant == "late_mods" else 2)
-        run = _mc(ctx, params, invariants=f"INVARIANT {invariant}\n", tag=f"_neg_{variant}")
-        ctx.expect_violation(run, invariant, f"negative control: {label}")
-    for invariant, label in [("NeverMerges", "the model does merge some pair"),
-                             ("NeverAbsorbs", "the model does absorb a trailing KR"),
-                             ("NeverSplits", "the model does split a gene into several modules")]:
-        run = _mc(ctx, small, invariants=f"INVARIANT {invariant}\n", tag=f"_neg_{invariant}")
-        ctx.expect_violation(run, invariant, f"non-vacuity: {label}")
-    params = dict(small, single=_indices(["PKS_KS", "ACP", "LPG_synthase_C", "Beta_elim_lyase"]), maxlen=5, maxdown=0)
-    run = _mc(ctx, params, invariants="INVARIANT NeverTwoCarriers\n", tag="_neg_two_cp")
-    ctx.expect_violation(run, "NeverTwoCarriers", "non-vacuity: the model does build a double-transporter module")
+    jobs = []
+    for variant, invariant, label in [
+            ("dup_loader", "SingleOK", "negative control: model that lets a second loader join"),
+            ("late_mods", "SingleOK", "negative control: model that lets any modification follow the carrier protein"),
+            ("no_cp_needed", "SingleOK", "negative control: model that reports complete without a carrier protein"),
+            ("drop_domain", "PairOK", "negative control: model whose merge loses the last domain")]:
+        jobs.append((dict(small, variant=variant, maxlen=3 if variant == "late_mods" else 2), invariant, label))
+    for invariant, label in [("NeverMerges", "non-vacuity: the model does merge some pair"),
+                             ("NeverAbsorbs", "non-vacuity: the model does absorb a trailing KR"),
+                             ("NeverSplits", "non-vacuity: the model does split a gene into several modules")]:
+        jobs.append((small, invariant, label))
+    jobs.append((dict(small, single=_indices(["PKS_KS", "ACP", "LPG_synthase_C", "Beta_elim_lyase"]), maxlen=5, maxdown=0),
+                 "NeverTwoCarriers", "non-vacuity: the model does build a double-transporter module"))
+    tlc.stage(ctx.workdir, {"MC_NrpsModules.tla": _alphabet_module()})
+
+    def one(numbered):
+        number, (params, invariant, _) = numbered
+        return _mc(ctx, params, invariants=f"INVARIANT {invariant}\n", tag=f"_neg{number}", workers=2, staged=True)
+
+    with ThreadPoolExecutor(max_workers=max(1, CPUS // 2)) as pool:
+        runs = list(pool.map(one, enumerate(jobs)))
+    for (_, invariant, label), run in zip(jobs, runs):
+        ctx.expect_violation(run, invariant, label)
+    covered = _mc(ctx, small, coverage=True, tag="_cov")
+    ctx.model(covered, "NrpsModules_MC small configuration with action coverage",
+              vacuity=["AddSingle", "StartPair", "AddDown"])
+
+
+def _actions_witnessed(cases, params):
+    """ the generator run is made without coverage (4x faster); that every action fired is read off its states """
+    genes = [c["input"] for c in cases if c["input"]["kind"] == "gene"]
+    pairs = [c["input"] for c in cases if c["input"]["kind"] == "pair"]
+    seen = {"AddSingle": any(len(g["doms"]) == params["maxlen"] for g in genes),
+            "StartPair": any(len(p["down"]) == 1 and len(p["up"]) == params["maxup"] for p in pairs),
+            "AddDown": any(len(p["down"]) == params["maxdown"] for p in pairs)}
+    missing = sorted(name for name, hit in seen.items() if not hit)
+    if missing:
+        raise MachineryError(f"vacuous generator run: no state produced by {missing}")
 
 
 def _validate_batches(ctx, cases, batch_size):
@@ -385,13 +411,14 @@ def run(ctx):
     cases = []
     for idx, (label, params) in enumerate(runs):
         mark = ctx.timer.elapsed()
-        mc = _mc(ctx, params, dump=True, coverage=True, tag=f"_gen{idx}")
+        mc = _mc(ctx, params, dump=True, tag=f"_gen{idx}")
         timing[f"model_run_{idx}"] = round(ctx.timer.elapsed() - mark, 1)
         mark = ctx.timer.elapsed()
-        ctx.model(mc, f"NrpsModules_MC {label}", vacuity=["AddSingle", "StartPair", "AddDown"])
+        ctx.model(mc, f"NrpsModules_MC {label}")
         found = _cases_from_dump(mc)
         if len(found) != mc.distinct:
             raise MachineryError(f"dump holds {len(found)} states, TLC reported {mc.distinct}")
+        _actions_witnessed(found, params)
         for case in found:
             key = json.dumps(case["input"], sort_keys=True)
             if key not in seen:
